@@ -53,7 +53,7 @@ def pyHexLenMinus2 (v : Int) : Nat := if v < 0 then hexDigits v.natAbs + 1 else 
 
 def hexDigitChar (n : Nat) : Char :=
   if n < 10 then Char.ofNat (48 + n) else Char.ofNat (87 + n)
-def hexByte (b : Nat) : String := String.mk [hexDigitChar (b / 16 % 16), hexDigitChar (b % 16)]
+def hexByte (b : Nat) : String := String.ofList [hexDigitChar (b / 16 % 16), hexDigitChar (b % 16)]
 def hexOfBytes (bs : List Nat) : String := String.join (bs.map hexByte)
 
 end A816
